@@ -13,6 +13,7 @@ import (
 	"sort"
 	"strings"
 	"sync"
+	"syscall"
 	"testing"
 	"time"
 
@@ -30,8 +31,9 @@ type syncSink struct {
 	buf       bytes.Buffer
 	syncedLen int
 	syncs     int
-	failWrite bool // every Write fails (nothing is stored)
-	failSync  bool // every Sync reports an error (after having synced)
+	failWrite bool  // every Write fails (nothing is stored)
+	failSync  bool  // every Sync reports an error (after having synced)
+	syncErr   error // the error reported then (nil = a generic one)
 	attempts  int
 }
 
@@ -50,6 +52,9 @@ func (s *syncSink) Sync() error {
 	s.syncedLen = s.buf.Len()
 	s.syncs++
 	if s.failSync {
+		if s.syncErr != nil {
+			return s.syncErr
+		}
 		return fmt.Errorf("sink sync failed")
 	}
 	return nil
@@ -72,6 +77,8 @@ type c06Config struct {
 	Fault     string // "" | writeerr | syncerr | corefail-before | corefail-after: a failing destination must not prevent termination
 	Before    []int  // lengths of ordinary entries logged before the terminal one (they sit in the buffer)
 	Family    string // "" | sibling-hooks | child-hooks | parent-hooks: another member of the logger family is derived with different terminal hooks (and used) first
+	Earlier   int    // crash-level entries (same level, through a sibling whose terminal hooks only record) logged earlier through the same core
+	SyncErr   string // with Fault syncerr: the error value Sync reports: "" (generic) | EINVAL | ENOTTY | PathError
 	Deriv     string // "" | with | withlazy | named | hooks | hooks+withlazy | hooks+with | withlazy+hooks: how the logger under test is derived from the one built on the core
 }
 
@@ -287,6 +294,12 @@ func propC06(t *rapid.T) {
 			cfg.Before = append(cfg.Before, rapid.SampledFrom([]int{0, 1, 10, 40, 100, 200, 1000, 5000}).Draw(t, "beforeLen"))
 		}
 	}
+	if cfg.Fault == "" || cfg.Fault == "syncerr" {
+		cfg.Earlier = rapid.SampledFrom([]int{0, 0, 1, 2}).Draw(t, "earlierCrashLevelEntries")
+	}
+	if cfg.Fault == "syncerr" {
+		cfg.SyncErr = rapid.SampledFrom([]string{"", "EINVAL", "ENOTTY", "PathError"}).Draw(t, "syncErrValue")
+	}
 	cfg.Family = rapid.SampledFrom([]string{"", "", "sibling-hooks", "child-hooks", "parent-hooks"}).Draw(t, "family")
 	cfg.Deriv = rapid.SampledFrom([]string{"", "", "with", "withlazy", "named", "hooks", "hooks+withlazy", "hooks+with", "withlazy+hooks"}).Draw(t, "derivation")
 	c06RunInProcess(t, cfg)
@@ -313,6 +326,15 @@ func c06RunInProcess(t interface{ Fatalf(string, ...any) }, cfg c06Config) {
 	c06Mu.Lock()
 	defer c06Mu.Unlock()
 	under := &syncSink{failWrite: cfg.Fault == "writeerr", failSync: cfg.Fault == "syncerr"}
+	// what fsync reports for terminals and pipes: still an attempt that has to be repeated for every later entry
+	switch cfg.SyncErr {
+	case "EINVAL":
+		under.syncErr = syscall.EINVAL
+	case "ENOTTY":
+		under.syncErr = syscall.ENOTTY
+	case "PathError":
+		under.syncErr = &os.PathError{Op: "sync", Path: "/dev/stderr", Err: syscall.EINVAL}
+	}
 	var ws zapcore.WriteSyncer = under
 	if cfg.BufSize >= 0 {
 		bws := &zapcore.BufferedWriteSyncer{WS: under, Size: cfg.bufSize(), FlushInterval: time.Hour}
@@ -370,6 +392,14 @@ func c06RunInProcess(t interface{ Fatalf(string, ...any) }, cfg c06Config) {
 	}
 	for i, n := range cfg.Before {
 		lg.Info(fmt.Sprintf("before-%d-%s", i, strings.Repeat("b", n)))
+	}
+	// earlier entries at the crash level itself that did not end the program (a recovered panic, a hook that only
+	// records, DPanic outside development): whatever they taught the core about its sink, the final entry is
+	// written and synced like the first
+	earlierHook := &recHook{under: under}
+	for i := 0; i < cfg.Earlier; i++ {
+		sib := lg.WithOptions(zap.WithFatalHook(earlierHook), zap.WithPanicHook(earlierHook))
+		sib.Log(c06LevelOf[cfg.Level], fmt.Sprintf("earlier-crash-%d", i))
 	}
 	fes, restore := c06FrontEnds(lg, cfg.Level, cfg.msg())
 	f := fes[cfg.Front]
@@ -472,6 +502,7 @@ func c06RunInProcess(t interface{ Fatalf(string, ...any) }, cfg c06Config) {
 	if cfg.Threshold <= 0 {
 		nBefore = len(cfg.Before)
 	}
+	nEarlier := cfg.Earlier // same level as the final entry: enabled exactly when it is
 	if otherHook.n != 0 {
 		t.Fatalf("%s: a terminal hook configured on ANOTHER logger of the family ran %d times", desc, otherHook.n)
 	}
@@ -481,15 +512,15 @@ func c06RunInProcess(t interface{ Fatalf(string, ...any) }, cfg c06Config) {
 		if under.attempts == 0 {
 			t.Fatalf("%s: the entry was never offered to the (failing) sink", desc)
 		}
-		if logs != nil && obsAt != 1 {
+		if logs != nil && obsAt != 1+nEarlier {
 			t.Fatalf("%s: observer branch of the tee had %d entries when the terminal action ran", desc, obsAt)
 		}
 	} else if c06Enabled(cfg) {
 		if !strings.Contains(sinkAt, line) {
 			t.Fatalf("%s: when the terminal action ran the underlying sink (below the buffer) held %q, not the entry", desc, sinkAt)
 		}
-		if strings.Count(sinkNow, "\n") != 1+nBefore {
-			t.Fatalf("%s: sink holds %d lines for %d entries", desc, strings.Count(sinkNow, "\n"), 1+nBefore)
+		if got := strings.Count(sinkNow, "\n"); got != 1+nBefore+nEarlier {
+			t.Fatalf("%s: sink holds %d lines for %d entries", desc, got, 1+nBefore+nEarlier)
 		}
 		for i := 0; i < nBefore; i++ {
 			if !strings.Contains(sinkAt, fmt.Sprintf("before-%d-", i)) {
@@ -502,8 +533,8 @@ func c06RunInProcess(t interface{ Fatalf(string, ...any) }, cfg c06Config) {
 		if syncedAt < len(sinkAt) || syncedAt == 0 {
 			t.Fatalf("%s: sink was not synced after the final entry (synced %d of %d bytes)", desc, syncedAt, len(sinkAt))
 		}
-		if logs != nil && obsAt != 1+nBefore {
-			t.Fatalf("%s: observer branch of the tee had %d entries when the terminal action ran, want %d", desc, obsAt, 1+nBefore)
+		if logs != nil && obsAt != 1+nBefore+nEarlier {
+			t.Fatalf("%s: observer branch of the tee had %d entries when the terminal action ran, want %d", desc, obsAt, 1+nBefore+nEarlier)
 		}
 	} else {
 		if sinkNow != "" || obsNow != 0 {
@@ -513,6 +544,104 @@ func c06RunInProcess(t interface{ Fatalf(string, ...any) }, cfg c06Config) {
 }
 
 func TestC06Terminal(t *testing.T) { rapid.Check(t, propC06) }
+
+// propC06Build: the same terminal behaviour through the constructor routes that assemble options from a
+// configuration (Config.Build with every flag combination, the New* presets) instead of zap.New(core, options...):
+// DPanic runs the panic action exactly when the configuration says "development", Panic and Fatal always do, the
+// entry is in the cores before the action runs - through every front end.
+func propC06Build(t *rapid.T) {
+	c06Mu.Lock()
+	defer c06Mu.Unlock()
+	under := &syncSink{}
+	enc := zapcore.NewJSONEncoder(zapcore.EncoderConfig{MessageKey: "m", LevelKey: "l", EncodeLevel: zapcore.LowercaseLevelEncoder})
+	oc, logs := observer.New(zapcore.DebugLevel)
+	hook := &recHook{under: under, logs: logs}
+	opts := []zap.Option{
+		zap.WrapCore(func(zapcore.Core) zapcore.Core {
+			return zapcore.NewTee(zapcore.NewCore(enc, under, zapcore.DebugLevel), oc)
+		}),
+		zap.WithFatalHook(hook), zap.WithPanicHook(hook), zap.ErrorOutput(&memSink{}),
+	}
+	route := rapid.SampledFrom([]string{"Config literal", "Config literal", "NewProductionConfig.Build", "NewDevelopmentConfig.Build", "NewProduction", "NewDevelopment", "NewExample"}).Draw(t, "route")
+	var lg *zap.Logger
+	var err error
+	wantDev := false
+	desc := route
+	switch route {
+	case "NewProduction":
+		lg, err = zap.NewProduction(opts...)
+	case "NewDevelopment":
+		lg, err = zap.NewDevelopment(opts...)
+		wantDev = true
+	case "NewExample":
+		lg = zap.NewExample(opts...)
+	default:
+		cfg := zap.NewProductionConfig()
+		if route == "NewDevelopmentConfig.Build" {
+			cfg = zap.NewDevelopmentConfig()
+		}
+		if route == "Config literal" || rapid.Bool().Draw(t, "changeFlags") {
+			cfg.Development = rapid.Bool().Draw(t, "Development")
+			cfg.DisableCaller = rapid.Bool().Draw(t, "DisableCaller")
+			cfg.DisableStacktrace = rapid.Bool().Draw(t, "DisableStacktrace")
+			cfg.Encoding = rapid.SampledFrom([]string{"json", "console"}).Draw(t, "Encoding")
+			if rapid.Bool().Draw(t, "noSampling") {
+				cfg.Sampling = nil
+			} else {
+				cfg.Sampling = &zap.SamplingConfig{Initial: 1, Thereafter: 0}
+			}
+			cfg.Level = zap.NewAtomicLevelAt(zapcore.Level(rapid.IntRange(-1, 3).Draw(t, "Level")))
+			if rapid.Bool().Draw(t, "initialFields") {
+				cfg.InitialFields = map[string]interface{}{"svc": "x"}
+			}
+		}
+		wantDev = cfg.Development
+		desc = fmt.Sprintf("%s{Development:%v DisableCaller:%v DisableStacktrace:%v Encoding:%s Sampling:%v}", route, cfg.Development, cfg.DisableCaller, cfg.DisableStacktrace, cfg.Encoding, cfg.Sampling != nil)
+		lg, err = cfg.Build(opts...)
+	}
+	if err != nil {
+		t.Fatalf("VERIF-INCONCLUSIVE %s: %v", desc, err)
+	}
+	if rapid.Bool().Draw(t, "derived") {
+		lg = lg.With(zap.Int("w", 1)).Named("n")
+	}
+	level := rapid.SampledFrom([]string{"dpanic", "dpanic", "panic", "fatal"}).Draw(t, "level")
+	front := rapid.SampledFrom(c06FrontNames(level)).Draw(t, "front")
+	fe, restore := c06FrontEnds(lg, level)
+	func() {
+		defer restore()
+		defer func() {
+			if r := recover(); r != nil {
+				t.Fatalf("%s via %s at %s: panicked with %v although a custom panic hook is installed", desc, front, level, r)
+			}
+		}()
+		fe[front]()
+	}()
+	wantAction := level != "dpanic" || wantDev
+	if wantAction && hook.n != 1 {
+		t.Fatalf("%s via %s at %s: the terminal action ran %d times, want once", desc, front, level, hook.n)
+	}
+	if !wantAction && hook.n != 0 {
+		t.Fatalf("%s via %s: DPanic ran the panic action %d times outside development mode", desc, front, hook.n)
+	}
+	if logs.Len() != 1 {
+		t.Fatalf("%s via %s at %s: %d entries reached the cores, want 1", desc, front, level, logs.Len())
+	}
+	if e := logs.All()[0]; e.Level != c06LevelOf[level] || e.Message != c06Msg {
+		t.Fatalf("%s via %s at %s: the cores received %v %q", desc, front, level, e.Level, e.Message)
+	}
+	if wantAction {
+		if hook.obsLen != 1 || !strings.Contains(hook.seen, c06Msg) {
+			t.Fatalf("%s via %s at %s: when the action ran the observer held %d entries and the sink %q", desc, front, level, hook.obsLen, clipS(hook.seen))
+		}
+		if level != "dpanic" && hook.synced < len(hook.seen) {
+			t.Fatalf("%s via %s at %s: the sink had not been synced when the action ran (%d of %d bytes)", desc, front, level, hook.synced, len(hook.seen))
+		}
+	}
+	statCase("C06", true, "build|"+desc+"|"+level+"|"+front, "constructor route "+route)
+}
+
+func TestC06Build(t *testing.T) { rapid.Check(t, propC06Build) }
 
 // ---- terminal entry while another Sync of the same output is in flight ----
 //
